@@ -312,6 +312,35 @@ func runC16(r *Report) {
 	dc := r.need("R-C16-1", dispPkg, "Dispose.Close")
 	if dc != nil {
 		rch := Calls(dc, false, "Dispose.runCleanHandlers")
+		var runner *ssa.Function
+		if len(rch) == 0 {
+			// the runner may have a new name and shape (`runHandlers(c.snapshotHandlers(), record)`): it is
+			// the function of the package, called from Close, that invokes `func() error` values
+			Instrs(dc, func(in ssa.Instruction) {
+				c, ok := in.(*ssa.Call)
+				if !ok || len(rch) > 0 {
+					return
+				}
+				h := c.Common().StaticCallee()
+				if h == nil || h.Pkg != dc.Pkg || len(h.Blocks) == 0 {
+					return
+				}
+				dyn := false
+				for _, u := range WithAnon(h) {
+					Instrs(u, func(x ssa.Instruction) {
+						if dc2, ok := x.(*ssa.Call); ok && !dc2.Common().IsInvoke() && dc2.Common().StaticCallee() == nil {
+							if _, isB := dc2.Common().Value.(*ssa.Builtin); !isB && dc2.Common().Signature().Params().Len() == 0 && dc2.Common().Signature().Results().Len() == 1 {
+								dyn = true
+							}
+						}
+					})
+				}
+				if dyn {
+					rch = append(rch, c)
+					runner = h
+				}
+			})
+		}
 		if len(rch) != 1 {
 			r.Fail("R-C16-1", dc.Pos(), "expected one runCleanHandlers call in Dispose.Close", "Dispose.Close", "anchor")
 		} else {
@@ -351,7 +380,13 @@ func runC16(r *Report) {
 			r.Ob("R-C16-1", CallPos(c), ls.Held(c.(ssa.Instruction), r.lockFor("internal/core/dispose", "Dispose", "closed", "currentLock")) == "W", "test, set and run happen under the lock of the closed flag (currentLock)", "Dispose.Close", "latch-locked")
 		}
 		n := 0
-		for _, c := range r.P.AllCalls("Dispose.runCleanHandlers") {
+		runnerCalls := r.P.AllCalls("Dispose.runCleanHandlers")
+		if runner != nil {
+			for _, c := range staticCallSites(r.P, runner) {
+				runnerCalls = append(runnerCalls, c)
+			}
+		}
+		for _, c := range runnerCalls {
 			n++
 			r.Ob("R-C16-1", CallPos(c), c.Parent() == dc, "runCleanHandlers is called only from Dispose.Close (found in "+r.P.FuncName(c.Parent())+")", r.P.FuncName(c.Parent()), "single-caller")
 		}
